@@ -1,7 +1,10 @@
 (* Dispatch.v — the single entry point the extracted driver calls:
    component number and flat input -> flat output. *)
-From RaftModel Require Import Base LogCache Config Commitment Compaction Node NodeCodec Candidate Lease Leader LeaderCodec Pipeline.
+From RaftModel Require Import Base LogCache Config Commitment Compaction Node NodeCodec Candidate Lease Leader LeaderCodec Pipeline LoopTable Futures.
 Open Scope N_scope.
+
+(* the table generated from the Go source on this run *)
+Definition the_table : table := mkT loops stepdown_flushes apis chan_caps error_selects_shutdown stopped_closed_after_wait.
 
 Definition run_case (comp : N) (inp : list N) : list N :=
   match comp with
@@ -15,6 +18,7 @@ Definition run_case (comp : N) (inp : list N) : list N :=
   | 14 => run_candidate inp
   | 8 => run_leaderseq inp
   | 16 => run_pipeline inp
+  | 17 => run_futures the_table inp
   | 13 => run_lease inp
   | 1301 => run_validate_timing inp
   | 1302 => [min_check_interval]
